@@ -42,10 +42,14 @@ def std_dict(cfg):
     add(0x1200, 1, 66, 2, le(0x600, 4))
     add(0x1200, 2, 66, 2, le(0x580, 4))
     if cfg.get("csdo"):
-        add(0x1280, 0, 130, 0, "3")
-        add(0x1280, 1, 3, 2, le(0x600, 4))
-        add(0x1280, 2, 3, 2, le(0x580, 4))
-        add(0x1280, 3, 3, 0, str(cfg["csdo"]))
+        # csdo_slot = 1 (CO_CSDO_N = 2 builds): the client under test is client #1 (1281h); client #0 talks to another server node
+        slot = cfg.get("csdo_slot", 0)
+        for k in range(slot + 1):
+            srv = cfg["csdo"] if k == slot else cfg["csdo"] - 1
+            add(0x1280 + k, 0, 130, 0, "3")
+            add(0x1280 + k, 1, 3, 2, le(0x600, 4))          # (the stack adds the server's node id of sub-index 3)
+            add(0x1280 + k, 2, 3, 2, le(0x580, 4))
+            add(0x1280 + k, 3, 3, 0, str(srv))
     rp = cfg.get("rpdo", [[0x200 + n, 254, [link(0x2101, 0, 8)]]])
     rp = [list(x) + [len(x[2])] if len(x) < 4 else list(x) for x in rp]
     # rshift / tshift: the PDOs occupy slots shift.. instead of 0.. (builds with unequal CO_RPDO_N / CO_TPDO_N: the highest slots)
